@@ -103,6 +103,8 @@ type H struct {
 	Stream        string
 	OnStep        func(h *H, op Op, real, model []BoxD) // extra oracles
 	pendingAppend *appendUID
+	LastImpl string // canonical implementation answer of the last op
+	Prev     []BoxD // real dump before the last op
 }
 
 func New(w *world.World, m *hx.Session, rep *hx.Report, user, stream string) *H {
@@ -111,6 +113,7 @@ func New(w *world.World, m *hx.Session, rep *hx.Report, user, stream string) *H 
 	h.A = w.Login(user)
 	h.O = w.Login(user)
 	h.M.Ask("m.init 1")
+	h.Prev = h.RealDump()
 	return h
 }
 func (h *H) Close() { h.A.Close(); h.O.Close() }
@@ -294,6 +297,24 @@ func (h *H) Do(op Op) {
 			impl = strings.TrimSpace(status(r) + " " + notes(r, false))
 		}
 		mline = strings.TrimSpace(strings.ReplaceAll(expNotes(mdl("m.uidexpunge "+hx.H(a[0])+" "+hx.H(a[1]))), " .", ""))
+	case "xstore", "xuidstore", "xexpunge", "xuidexpunge", "xclose": // the same commands after EXAMINE: nothing may change
+		if !h.A.Cmd("EXAMINE " + a[0]).OK() {
+			impl = "no"
+		} else {
+			switch op.Kind {
+			case "xstore":
+				impl = status(h.A.Cmd("STORE " + a[1] + " +FLAGS (" + strings.Join(a[2:], " ") + ")"))
+			case "xuidstore":
+				impl = status(h.A.Cmd("UID STORE " + a[1] + " +FLAGS (" + strings.Join(a[2:], " ") + ")"))
+			case "xexpunge":
+				impl = status(h.A.Cmd("EXPUNGE"))
+			case "xuidexpunge":
+				impl = status(h.A.Cmd("UID EXPUNGE " + a[1]))
+			case "xclose":
+				impl = status(h.A.Cmd("CLOSE"))
+			}
+		}
+		mline = mdl("m.readonly " + op.Kind[1:] + " " + hx.H(a[0]))
 	case "create":
 		impl = status(h.A.Cmd("CREATE " + a[0]))
 		mline = mdl("m.create " + hx.H(a[0]) + " " + strconv.Itoa(len(h.Ops)+1))
@@ -315,12 +336,23 @@ func (h *H) Do(op Op) {
 	}
 	h.Rep.Hit("op:" + op.Kind)
 	h.Rep.Hit("op:" + op.Kind + ":" + strings.Fields(impl + " x")[0])
+	if strings.HasPrefix(op.Kind, "x") && h.Prev != nil {
+		// C10.4 on the real observations: a command issued after EXAMINE must not change anything
+		if now := CanonDump(h.RealDump()); now != CanonDump(h.Prev) {
+			h.fail("impl-violation", fmt.Sprintf("%q: the mailbox was opened with EXAMINE and has been modified by this session\n  before: %s\n  after:  %s", op.Human(), CanonDump(h.Prev), now))
+			return
+		}
+		// the property demands "never modified", not a particular status word: OK and NO are both acceptable answers
+		impl = mline
+	}
 	if impl != mline {
 		h.fail("broken-correspondence", fmt.Sprintf("after %d ops, %q: implementation answered %q, model %q", len(h.Ops), op.Human(), impl, mline))
 		return
 	}
+	h.LastImpl = impl
 	real := h.RealDump()
 	model := h.ModelDump()
+	defer func() { h.Prev = real }()
 	// the property's oracle on the real observations comes first: a failure there is a violation by the implementation
 	h.oracle(op, real, model)
 	if h.Failed {
